@@ -188,6 +188,26 @@ pub fn c10() -> i32 {
             })
             .collect();
         scns.extend(stragglers);
+        // equal receipt, and the network delivers a second copy of the survivors' own input packets
+        // from around the death much later, after both have registered the drop (the statuses those
+        // old packets carry are older than what the receiver already knows)
+        let old_dups: Vec<Scenario> = scenarios("c10-split-old-duplicate", "1+1+1", &[2, 8], &[0], &[false, true], 5..8, 0, (100, 300), 1)
+            .into_iter()
+            .flat_map(|s| {
+                [22, 30, 45].into_iter().map(move |late_by| {
+                    let mut x = s.clone();
+                    let (a, b) = (x.peers[0].addr, x.peers[1].addr);
+                    let death = x.script.iter().find(|i| i.action == Action::Die).map(|i| i.round).unwrap_or(5);
+                    for r in death - 4..death + 3 {
+                        x.scripted.push(ScriptedFate { from: a, to: b, round: r, classes: CLASS_INPUT, fate: Fate::DupLate(late_by) });
+                        x.scripted.push(ScriptedFate { from: b, to: a, round: r, classes: CLASS_INPUT, fate: Fate::DupLate(late_by + 2) });
+                    }
+                    x.name = format!("{} survivors' packets of rounds {}..{} delivered again {late_by} rounds later", x.name, death - 4, death + 2);
+                    x
+                })
+            })
+            .collect();
+        scns.extend(old_dups);
         // long after the drop (the dead peer's endpoint has been shut down for good after 5 s) a
         // survivor's application calls disconnect_player for the dropped player again: refused,
         // and both survivors keep running in agreement
